@@ -132,12 +132,7 @@ pub open spec fn nnt(l: &LexedStr<'_>, pos: int) -> int
 {
     if pos >= l.ntok() || pos < 0 { 0 } else { (if trivia(l.kind@[pos]) { 0int } else { 1int }) + nnt(l, pos + 1) }
 }
-/// raw tokens the remaining Token steps will consume
-pub open spec fn tok_sum(steps: Seq<Step<'_>>) -> int
-    decreases steps.len()
-{
-    if steps.len() == 0 { 0 } else { (if steps[0] is Token { steps[0]->n_input_tokens as int } else { 0int }) + tok_sum(steps.skip(1)) }
-}
+@@SHARED_STEPS@@
 pub proof fn lemma_nnt_bounds(l: &LexedStr<'_>, pos: int)
     requires 0 <= pos <= l.ntok(),
     ensures 0 <= nnt(l, pos) <= l.ntok() - pos,
